@@ -1,6 +1,7 @@
 package router
 
 import (
+	"context"
 	"io"
 	"net/http"
 	"net/netip"
@@ -265,5 +266,66 @@ func VerifH_C15_HTTPClientAddrHeader() {
 	} else {
 		verifrt.Reach("answered")
 		verifrt.Assert(len(w.bodies) == 1, "admitted: answered")
+	}
+}
+
+// vQStreamConn: a DoQ connection that delivers a scripted sequence of streams and then dies.
+type vQStreamConn struct {
+	vQConn
+	streams []*vQStream
+	next    int
+}
+
+func (c *vQStreamConn) AcceptStream(ctx context.Context) (quic.Stream, error) {
+	if c.next >= len(c.streams) {
+		return nil, errVNet // connection closed by the peer / idle
+	}
+	s := c.streams[c.next]
+	c.next++
+	return s, nil
+}
+
+// VerifH_C03_QuicConnection: the DoQ connection loop: three streams on one connection, each carrying one complete
+// query, handled concurrently (≤ 1 scheduling deviation); the limiter may refuse any of them. Every admitted query gets
+// exactly one length-prefixed response ON ITS OWN STREAM, carrying its own ID, question and answer; a refused stream
+// gets nothing and is not forwarded; every stream is closed; the loop ends when the connection does.
+func VerifH_C03_QuicConnection() {
+	verifrt.Unwind(300)
+	verifrt.SchedBound(1)
+	verifrt.CtxNoExpiry = true
+	up := &vKeyedUpstream{}
+	r, charges := vLimitedRouter(up)
+	s := &quicServer{r: r, idleTimeout: 1}
+	c := &vQStreamConn{}
+	ids := []uint16{0x101, 0x202, 0x303}
+	for i, id := range ids {
+		c.streams = append(c.streams, &vQStream{in: vFrame(vQueryMsg(id, byte('a'+i), false, 0))})
+	}
+	err := s.handleConn(c)
+	verifrt.Quiesce()
+	verifrt.Reach("connection-ended")
+	verifrt.Assert(err != nil && c.next == 3, "the loop accepted every stream and ended with the connection")
+	answered := 0
+	for i, st := range c.streams {
+		verifrt.Assert(st.closed >= 1, "every stream is closed")
+		if len(st.writes) == 0 {
+			continue
+		}
+		answered++
+		bodies := vCheckFrames(st.writes)
+		verifrt.Assert(len(bodies) == 1, "exactly one response frame on the query's own stream")
+		vCheckResponse(bodies[0], ids[i], byte('a'+i), true)
+	}
+	admitted := 0
+	for _, ch := range *charges {
+		verifrt.Assert(ch.addr == netip.AddrFrom4([4]byte{198, 51, 100, 9}), "charges go to the client")
+		if ch.n == costQUICQuery {
+			admitted++
+		}
+	}
+	verifrt.Assert(admitted == 3, "each stream is submitted to the limiter once")
+	verifrt.Assert(answered == up.calls, "exactly the admitted queries are forwarded and answered")
+	if answered == 3 {
+		verifrt.Reach("all-answered")
 	}
 }
